@@ -479,21 +479,21 @@ func appendInt(dst []byte, bits uint8, index uint64) []byte {
 	}
 	b0 := uint64(1<<bits - 1)
 
-	if index <= b0 {
+	// A value that fills the prefix (2^N-1) is not the prefix alone: all ones
+	// in the prefix say that continuation octets follow, here a single zero.
+	if index < b0 {
 		dst[len(dst)-1] |= byte(index)
 		return dst
 	}
 
 	dst[len(dst)-1] |= byte(b0)
 	index -= b0
-	for index != 0 {
+	for index >= 128 {
 		dst = append(dst, 128|byte(index&127))
 		index >>= 7
 	}
 
-	dst[len(dst)-1] &= 127
-
-	return dst
+	return append(dst, byte(index))
 }
 
 // readString reads string from a header field.
